@@ -258,7 +258,8 @@ func typeNameOK(n string) bool {
 func (s spec) wellFormed() bool {
 	seen := map[string]bool{}
 	for _, m := range s.mods {
-		if !modRx.MatchString(m) || seen[m] {
+		// `environment` is the pseudo module name of the environment loader itself (treated as global by the code)
+		if !modRx.MatchString(m) || seen[m] || m == "environment" {
 			return false
 		}
 		seen[m] = true
